@@ -1,5 +1,5 @@
 import TunnoxModel.Model.Src
-import TunnoxModel.Gen.Pred
+import TunnoxModel.Gen.Packet
 /-
   C01/C05 — packet framing.  Mirrors
     internal/stream/stream_processor_write.go  WritePacket
